@@ -2146,7 +2146,11 @@ class ReferenceManager:
             newrefs.append(impl.own_refs[name])
 
         self._valid_to_refs.pop(prev_id)
-        self._valid_to_refs[id(new_value)] = newrefs
+        # The new value may already be bound to other references
+        refs = self._valid_to_refs.setdefault(id(new_value), [])
+        for ref in newrefs:
+            if all(ref is not r for r in refs):
+                refs.append(ref)
 
     @staticmethod
     def _impl_change_ref(impl, name, value, *refmode):
